@@ -48,6 +48,8 @@ def randgraph(
         k = int(random.randint(1, max(1, i)) * connectivity)
         if ensurelink:
             k = max(k, 1)
+        # cannot draw more distinct vertices than exist
+        k = min(k, count)
 
         adj[verts[i]] = random.sample(verts, k)
 
